@@ -13,7 +13,6 @@ import collections
 import json
 import os
 import time
-from concurrent.futures import ProcessPoolExecutor
 
 from ..core import PKG, VERIF, PROVED, REFUTED, UNKNOWN, FAULT, Ob, seed
 from .. import calc
@@ -49,11 +48,10 @@ def run(report):
     jobs = int(os.environ.get("VERIF_JOBS", "16"))
     t0 = time.time()
     results = []
-    if jobs <= 1 or len(tasks) < 4:
+    if jobs <= 1:
         results = [calc.process_module(t) for t in tasks]
     else:
-        with ProcessPoolExecutor(max_workers=jobs) as ex:
-            results = list(ex.map(calc.process_module, tasks, chunksize=1))
+        results = calc.run_pool(tasks, jobs, os.environ.get("VERIF_C02_PROGRESS"))
     pool_s = time.time() - t0
 
     klass_count = collections.Counter()
@@ -66,6 +64,9 @@ def run(report):
     slow = []
     for r in results:
         m = r["modname"]
+        if r.get("crash"):
+            report.fault(f"worker crashed on {m}: {r['crash'][:300]}")
+            continue
         if r["import_error"]:
             if m in KNOWN_IMPORT_FAILURES:
                 for fn in ast_names[m]:
